@@ -1,6 +1,7 @@
 import Infretis.Lemmas.MovesShoot
 /-! Concrete inputs of `Moves.shoot` evaluated by the kernel (`decide +kernel`): the non-vacuity
-    examples and the witness of the `length == maxlen` finding.  No Mathlib import here on purpose:
+    examples (for `repaired`, the code since /repo f955162) and the witness of the `length == maxlen`
+    finding of the earlier code (`asIs`).  No Mathlib import here on purpose:
     the evaluations go through core `Rat` only. -/
 namespace Infretis.Moves
 
@@ -22,11 +23,11 @@ def exIn : ShootIn where
   back := [3, -1, 7]
   forw := [2, 5, 7]
 
-theorem exIn_eval : (shoot .asIs exIn).toOption = some
+theorem exIn_eval : (shoot .repaired exIn).toOption = some
     { accept := true, status := .ACC, trial := [-1, 3, 2, 2, 5], genSp := 2, genIdx := 2, genNb := 2,
       timeOrigin := 10, draws := [.integers 1 3, .random], usedB := 3, usedF := 3 } := by decide +kernel
 
-theorem exIn_reject_eval : (shoot .asIs { exIn with forw := [2, 2, 2] }).toOption = some
+theorem exIn_reject_eval : (shoot .repaired { exIn with forw := [2, 2, 2] }).toOption = some
     { accept := false, status := .FTL, trial := [-1, 3, 2, 2, 2, 2], genSp := 2, genIdx := 2, genNb := 2,
       timeOrigin := 10, draws := [.integers 1 3, .random], usedB := 3, usedF := 4 } := by decide +kernel
 
